@@ -1056,6 +1056,60 @@ Definition aligned_gen (min_ts ts_ : Z) : Z := ts_ - min_ts.
     return "gen/LinkRules_gen.v"
 
 
+# ---- which edges the overlay draws (hta/analyzers/critical_path_analysis.py) -> coq/gen/OverlayRules_gen.v ----
+def gen_overlay_rules() -> str:
+    """Reads CriticalPathAnalysis._is_zero_weight_launch_edge (type == KERNEL_LAUNCH_DELAY and weight == 0), and in
+    overlay_critical_path_analysis the override `if only_show_critical_events: show_all_edges = False`, the marking loop (an event is
+    marked iff its position is in critical_path_events_set) and the edge selection (all edges minus the hidden zero-weight launch edges when
+    show_all_edges, else the critical edges)."""
+    path = "hta/analyzers/critical_path_analysis.py"
+    tree = ast.parse(open(os.path.join(fw.REPO, path)).read())
+    classes = {n.name: n for n in tree.body if isinstance(n, ast.ClassDef)}
+    if "CPEdgeType" not in classes or "CriticalPathAnalysis" not in classes:
+        raise Stop("critical_path_analysis.py: CPEdgeType / CriticalPathAnalysis not found")
+    members = [st.targets[0].id for st in classes["CPEdgeType"].body if isinstance(st, ast.Assign) and isinstance(st.targets[0], ast.Name)]
+    if "KERNEL_LAUNCH_DELAY" not in members:
+        raise Stop("CPEdgeType has no member KERNEL_LAUNCH_DELAY")
+    code = members.index("KERNEL_LAUNCH_DELAY")
+    fns = {n.name: n for n in classes["CriticalPathAnalysis"].body if isinstance(n, ast.FunctionDef)}
+    z = fns.get("_is_zero_weight_launch_edge")
+    if z is None or [ast.unparse(st) for st in z.body] != ["return e.type == CPEdgeType.KERNEL_LAUNCH_DELAY and e.weight == 0"]:
+        raise Stop("_is_zero_weight_launch_edge is not `return e.type == CPEdgeType.KERNEL_LAUNCH_DELAY and e.weight == 0`")
+    ov = fns.get("overlay_critical_path_analysis")
+    if ov is None:
+        raise Stop("overlay_critical_path_analysis not found")
+    texts = [ast.unparse(st) for st in ov.body]
+    need = ["if only_show_critical_events:\n    show_all_edges = False",
+            "for ev_idx, event in enumerate(raw_events):\n    if ev_idx in critical_path_graph.critical_path_events_set:\n        event['args']['critical'] = 1",
+            "if show_all_edges:\n    edges = (critical_path_graph.edges[u, v]['object'] for u, v in critical_path_graph.edges)\n"
+            "    if not hta_options.critical_path_show_zero_weight_launch_edges():\n"
+            "        edges = (e for e in edges if not CriticalPathAnalysis._is_zero_weight_launch_edge(e))\n"
+            "else:\n    edges = (e for e in critical_path_graph.critical_path_edges_set)"]
+    pos = []
+    for w in need:
+        if w not in texts:
+            raise Stop(f"overlay_critical_path_analysis: statement not found as the model expects it: `{w[:110]}...`")
+        pos.append(texts.index(w))
+    if pos != sorted(pos):
+        raise Stop("overlay_critical_path_analysis: override, marking loop and edge selection are not in this order")
+    loop = ov.body[pos[2] + 1] if pos[2] + 1 < len(ov.body) else None
+    if not (isinstance(loop, ast.For) and ast.unparse(loop.target) == "e" and ast.unparse(loop.iter) == "edges"):
+        raise Stop("overlay_critical_path_analysis: the edge selection is not followed by `for e in edges`")
+    out = f'''(* GENERATED by harness/translate.py from hta/analyzers/critical_path_analysis.py (CriticalPathAnalysis._is_zero_weight_launch_edge,
+   overlay_critical_path_analysis) -- do not edit.  Edge types are numbered by the member order of CPEdgeType. *)
+From HTA.lib Require Import Base.
+Open Scope Z_scope.
+
+Definition launch_delay_code_gen : Z := {code}.
+Definition zero_launch_gen (ty w : Z) : bool := (ty =? launch_delay_code_gen) && (w =? 0).
+(* which of the two edge lists is drawn, and which of its members *)
+Definition draws_all_gen (only_crit show_all : bool) : bool := if only_crit then false else show_all.
+Definition drawn_member_gen (zw_show : bool) (ty w : Z) : bool := zw_show || negb (zero_launch_gen ty w).
+'''
+    write_if_changed(os.path.join(GEN, "OverlayRules_gen.v"), out)
+    return "gen/OverlayRules_gen.v"
+
+
 # ---- the change classes of hta/trace_diff.py -> coq/gen/DiffRules_gen.v ----
 def gen_diff_rules() -> str:
     """Reads TraceDiff.compare_traces (diff_counts / diff_duration = test minus control; the sign lambda of counts_change_categories) and the
